@@ -142,6 +142,22 @@ def k_meta_refuse(ctx, cfg, n, state):
                 ctx.fail("fd.metadata_refusal", "long_metadata_packed", f"n={'64' if n == 64 else '>64'}/via_setter", case, observed=res[:40])
             elif not isinstance(res, ValueError):
                 ctx.fail("fd.metadata_refusal", "wrong_error", f"{type(res).__name__}/via_setter", case, error=repr(res))
+            # ... and the PDU object after the refusal: unchanged if the assignment itself was refused, and in any case what it was
+            # before once the previous (valid) metadata are assigned again
+            p0 = {"offset": 1, "data": "0102", "seg_meta": start}
+            want0 = C.ref_octets("file_data", cfg, p0)
+            pdu = C.build("file_data", cfg, p0)
+            if packed_first:
+                pdu.pack()
+            ok_set, e = attempt(setattr, pdu, "segment_metadata", X.SegmentMetadata(X.RecordContinuationState(state), bytes.fromhex("ab" * n)))
+            if not ok_set:
+                ok2, raw2 = attempt(lambda: bytes(pdu.pack()))
+                ctx.check("fd.metadata_refusal", ok2 and raw2 == want0 and pdu.packet_len == len(want0), "object_changed_by_a_refused_assignment", f"start={'meta' if start else 'none'}", case,
+                          observed=raw2[:40] if ok2 else repr(raw2), expected=want0[:40])
+            attempt(setattr, pdu, "segment_metadata", None if start is None else X.SegmentMetadata(X.RecordContinuationState(start[0]), bytes.fromhex(start[1])))
+            ok3, raw3 = attempt(lambda: bytes(pdu.pack()))
+            ctx.check("fd.metadata_refusal", ok3 and raw3 == want0 and pdu.packet_len == len(want0), "object_not_restored_by_a_valid_assignment_after_the_refusal", f"start={'meta' if start else 'none'}", case,
+                      observed=raw3[:40] if ok3 else repr(raw3), expected=want0[:40])
 
 
 def k_seglen(ctx, cfg, max_len, meta_len):
